@@ -58,7 +58,7 @@ func genCase(t *rapid.T) Case {
 			continue
 		}
 		st := Step{Slot: rapid.SampledFrom([]int{0, 0, 1, 1, 2, -1}).Draw(t, "slot")}
-		st.Kind = rapid.SampledFrom([]string{"open", "open", "data", "data", "poll", "close", "bsend", "bsend", "bclose", "group", "group", "group"}).Draw(t, "kind")
+		st.Kind = rapid.SampledFrom([]string{"open", "open", "data", "data", "poll", "close", "bsend", "bsend", "bclose", "group", "group", "group", "open-race"}).Draw(t, "kind")
 		switch st.Kind {
 		case "data":
 			st.Arg = rapid.SampledFrom([]string{"valid", "valid", "valid", "malformed", "wrong-type", "empty-list", "not-base64",
@@ -206,7 +206,55 @@ func runCase(c *Case) vh.Outcome {
 			if res.Status != 200 || bc == nil {
 				return fail(i, "open of a reachable backend answered %d %q", res.Status, res.Body)
 			}
+			for k, other := range slots {
+				if k != st.Slot && other.state == "open" && other.id == nid {
+					return fail(i, "a new session was given the id %q of a session that is still open", nid)
+				}
+			}
 			*s = slot{state: "open", id: nid, bc: bc, sends: &sync.WaitGroup{}}
+		case "open-race":
+			// an open whose backend handshake is refused after 300 ms overlaps a successful open; a third open follows
+			if s == nil || s.state == "open" {
+				continue
+			}
+			o.Classes = append(o.Classes, "failing-open-overlaps-successful-open")
+			failed := make(chan shimrig.Result, 1)
+			ctr++
+			go func(n int) {
+				failed <- r.Call("POST", r.ShimPath+"/open", []byte(fmt.Sprintf("ws://client.example/slowfail/%d", n)), nil, callTimeout)
+			}(ctr)
+			time.Sleep(50 * time.Millisecond)
+			ctr++
+			nid, bc, res := r.Open(fmt.Sprintf("/ws/c12-%d", ctr), 1, nil, callTimeout)
+			if err := answered(res); err != nil || res.Status != 200 || bc == nil {
+				return fail(i, "open during a failing open: %v status %d", err, res.Status)
+			}
+			*s = slot{state: "open", id: nid, bc: bc, sends: &sync.WaitGroup{}}
+			fres := <-failed
+			if err := answered(fres); err != nil {
+				return fail(i, "open with a refused handshake: %v", err)
+			}
+			if fres.Status == 200 {
+				return fail(i, "open answered 200 although the backend refused the websocket handshake")
+			}
+			// the next open must not be handed the id of the session that is still open
+			for k, other := range slots {
+				if other.state == "open" || k == st.Slot {
+					continue
+				}
+				ctr++
+				nid2, bc2, res2 := r.Open(fmt.Sprintf("/ws/c12-%d", ctr), 1, nil, callTimeout)
+				if err := answered(res2); err != nil || res2.Status != 200 || bc2 == nil {
+					return fail(i, "open after a failed open: %v status %d", err, res2.Status)
+				}
+				for _, x := range slots {
+					if x.state == "open" && x.id == nid2 {
+						return fail(i, "after a failed open, a new session was given the id %q of a session that is still open", nid2)
+					}
+				}
+				*other = slot{state: "open", id: nid2, bc: bc2, sends: &sync.WaitGroup{}}
+				break
+			}
 		case "data":
 			res := call("data", dataBody(id, st.Arg, st.N))
 			if err := answered(res); err != nil {
